@@ -123,6 +123,9 @@ class Checker:
             return Tup(list(r)) if isinstance(r, (list, tuple)) else r
         if text in ('copy.deepcopy', 'copy.copy', 'deepcopy'): return FRESH if flat and flat[0] != VALUE else VALUE
         if text == 'self.__class__': return FRESH
+        if isinstance(f, ast.Attribute) and isinstance(f.value, ast.Name) and f.value.id == 'self' and text not in cal:
+            r = self.inline_method(f.attr, e, args)
+            if r is not None: return r[0]
         if isinstance(f, ast.Attribute):
             if text.startswith(('np.', 'numpy.', 'scipy.', 'LA.')) or (isinstance(f.value, ast.Attribute) and ast.unparse(f.value) in ('np.linalg',)):
                 if f.attr in FRESH_CALLS: return FRESH if f.attr not in ('eigh',) else Tup([FRESH, FRESH])
@@ -146,6 +149,43 @@ class Checker:
             if f.id in FRESH_CALLS: return FRESH
             raise Undecided('ownership typing: call to %s (line %d) has no contract' % (f.id, e.lineno))
         raise Undecided('ownership typing: call form (line %d)' % e.lineno)
+
+    def inline_method(self, mname, e, args):
+        """a private helper of the same class without an ownership contract: its body is walked in place with the kinds of the actual
+        arguments; its obligations become ours; -> (kind of the result,) or None when there is no such method"""
+        from .. import extract
+        qn = self.c.get('qualname', '')
+        if '.' not in qn or getattr(self, 'depth', 0) >= 3: return None
+        try:
+            fn2 = extract.get(self.c['relpath'], qn.split('.')[0] + '.' + mname)
+        except KeyError:
+            return None
+        a = fn2.node.args
+        if a.vararg or a.kwarg or a.kwonlyargs or a.posonlyargs or e.keywords: raise Undecided('ownership typing: signature / keywords of helper %s (line %d)' % (mname, e.lineno))
+        names = [x.arg for x in a.args]
+        if names and names[0] in ('self', 'cls'): names = names[1:]
+        if len(args) + len(a.defaults) < len(names) or len(args) > len(names): raise Undecided('ownership typing: arguments of helper %s (line %d)' % (mname, e.lineno))
+        sub = Checker(dict(self.c, qualname=qn.split('.')[0] + '.' + mname, params={}), fn2)
+        sub.depth = getattr(self, 'depth', 0) + 1
+        sub.env = {'self': self.env.get('self', VALUE)}
+        for n_, k_ in zip(names, args): sub.env[n_] = k_
+        for n_, dflt in zip(names[len(names) - len(a.defaults):], a.defaults):
+            if n_ not in sub.env: sub.env[n_] = VALUE if isinstance(dflt, ast.Constant) else ALIAS
+        sub.returns = []
+        body = fn2.body
+        sub.run_block(body)
+        for (nm, ok, det, line) in sub.obs:
+            if nm.startswith('returns-fresh'): continue          # what the helper returns is judged where OUR function returns / stores it
+            self.obs.append(('inlined %s:%s' % (mname, nm), ok, det, line))
+        self.stored_alias += sub.stored_alias
+        if not sub.returns: return (VALUE,)
+        out = sub.returns[0]
+        for r in sub.returns[1:]:
+            if isinstance(out, Tup) or isinstance(r, Tup):
+                if not (isinstance(out, Tup) and isinstance(r, Tup) and len(out.items) == len(r.items)): raise Undecided('ownership typing: helper %s returns values of different shapes (line %d)' % (mname, e.lineno))
+                out = Tup([x if isinstance(x, Tup) or isinstance(y, Tup) else join(x, y) for x, y in zip(out.items, r.items)])
+            else: out = join(out, r)
+        return (out,)
 
     # ---- statements
     def bind(self, target, st):
@@ -229,6 +269,7 @@ class Checker:
             return
         if isinstance(st, ast.Return):
             v = self.ev(st.value) if st.value is not None else VALUE
+            if hasattr(self, 'returns'): self.returns.append(v)
             items = v.items if isinstance(v, Tup) else [v]
             exprs = st.value.elts if isinstance(st.value, ast.Tuple) else [st.value]
             for k, (x, ex) in enumerate(zip(items, exprs)):
@@ -253,7 +294,7 @@ class Checker:
                 self.ev(st.test)
             n0 = len(self.obs); self.run_block(st.body); del self.obs[n0:]; self.run_block(st.body)
             return
-        if isinstance(st, (ast.Pass, ast.Continue, ast.Break, ast.Raise, ast.Import, ast.ImportFrom)): return
+        if isinstance(st, (ast.Pass, ast.Continue, ast.Break, ast.Raise, ast.Import, ast.ImportFrom, ast.Assert)): return      # an assertion reads, it does not store
         if isinstance(st, ast.Try):
             self.run_block(st.body)
             for h in st.handlers: self.run_block(h.body)
